@@ -179,6 +179,7 @@ type Config struct {
 	Solver        string
 	ConcStores    bool
 	StubConst     map[string]uint64
+	StubFirstByte []string
 }
 
 type caseReq struct {
